@@ -83,9 +83,21 @@ def fanWalk (L : List (Option Tri)) (v x0 : Nat) : Nat → Nat → Nat → List 
       let y := thirdNode t v x
       if y == x0 then some (fs ++ [g], ns ++ [x]) else fanWalk L v x0 fuel y g (fs ++ [g]) (ns ++ [x])
 
+/-- non-decreasing -/
+def sortedLeB : List Nat → Bool
+  | [] => true
+  | x :: xs => xs.all (fun y => decide (x ≤ y)) && sortedLeB xs
+
 section
 variable {R : Type} [Add R] [Sub R] [Mul R] [Div R] [Neg R] [Lit R] [LT R] [LE R] [DecidableLT R]
   [DecidableLE R] [DecidableEq R]
+
+/-- the two neighbour lists that `can_be_merged` sorts with `Array.qsort` come out sorted (`SortSpecAt`: the one fact
+    about `Array.qsort` that `C01.merge_guard_iff` takes as a hypothesis) -/
+def chkSortSpec (c : Cell R) (e : Edge) : Bool :=
+  match connectedNodes c e.n1 e, connectedNodes c e.n2 e with
+  | .ok la, .ok lb => sortedLeB (sortNat la) && sortedLeB (sortNat lb)
+  | _, _ => true
 
 /-- the slot `add_node` will hand out -/
 def chkNewSlot (c : Cell R) : Nat :=
